@@ -355,7 +355,7 @@ fn finish(rng: &mut Rng, mut st: Start) -> Option<Start> {
     Some(st)
 }
 
-pub const N_SCEN: usize = 22;
+pub const N_SCEN: usize = 23;
 pub const SCEN_NAMES: [&str; N_SCEN] = [
     "ep_rank_exposure",
     "ep_after_interposing_push",
@@ -379,6 +379,7 @@ pub const SCEN_NAMES: [&str; N_SCEN] = [
     "ep_interposes_check",
     "special_move_ends_game",
     "double_push_ends_game_illegal_ep",
+    "many_lined_up_sliders",
 ];
 
 /// Try to produce an instance of scenario `id`; None if this draw did not validate.
@@ -1189,8 +1190,85 @@ pub fn scenario(rng: &mut Rng, id: usize) -> Option<Start> {
         }
         20 => special_move_ends_game(rng).and_then(|st| finish(rng, st)),
         21 => illegal_ep_ends_game(rng).and_then(|st| finish(rng, st)),
+        22 => many_lined_up_sliders(rng).and_then(|st| finish(rng, st)),
         _ => None,
     }
+}
+
+/// Many enemy sliders lined up with one king (promoted queens, rooks and bishops, several per ray, most
+/// of them behind blockers): pin and check scans that assume "a king is on eight lines, so at most
+/// eight candidates" or "at most two men per ray matter" meet up to fifteen candidates here.
+fn many_lined_up_sliders(rng: &mut Rng) -> Option<Start> {
+    let tag = SCEN_NAMES[22];
+    for _ in 0..60 {
+        let mut p = RPos::empty();
+        let k = sqm(rng.range(1, 6) as i8, rng.range(1, 6) as i8);
+        let victim = WHITE;
+        p.sq[k as usize] = pc(K, victim);
+        let (kf, kr) = fr(k);
+        let mut sliders = 0usize;
+        let target = rng.range(6, 14);
+        let mut rays: Vec<(i8, i8)> = KG.to_vec();
+        rng.shuffle(&mut rays);
+        let open_ray = if rng.chance(1, 3) { Some(rng.below(8)) } else { None };
+        for (i, d) in rays.iter().enumerate() {
+            let diag = d.0 != 0 && d.1 != 0;
+            // squares of the ray, nearest first
+            let mut sq: Vec<Sq> = vec![];
+            let (mut f, mut r) = (kf + d.0, kr + d.1);
+            while let Some(s) = mk(f, r) {
+                sq.push(s);
+                f += d.0;
+                r += d.1;
+            }
+            if sq.len() < 2 {
+                continue;
+            }
+            // a blocker next to the king (own man: a pin candidate; enemy knight/pawn: no pin), except on
+            // one ray now and then, where the nearest slider gives check
+            let mut start = 0;
+            if open_ray != Some(i) {
+                let bs = sq[rng.below(2.min(sq.len() - 1))];
+                let own = rng.chance(2, 3);
+                let kind_b = if own { *rng.pick(&[N, B, R, P, Q]) } else { N };
+                let kind_b = if kind_b == P && (bs >> 3 == 0 || bs >> 3 == 7) { N } else { kind_b };
+                p.sq[bs as usize] = pc(kind_b, if own { victim } else { victim ^ 1 });
+                start = sq.iter().position(|x| *x == bs).unwrap() + 1;
+            }
+            let n = rng.range(1, 3);
+            for s in sq.iter().skip(start) {
+                if sliders >= target || p.men(victim ^ 1) >= 15 {
+                    break;
+                }
+                if rng.chance(3, 4) && p.sq[*s as usize] == 0 {
+                    let kd = if diag { *rng.pick(&[B, Q, Q]) } else { *rng.pick(&[R, Q, Q]) };
+                    p.sq[*s as usize] = pc(kd, victim ^ 1);
+                    sliders += 1;
+                    if sliders % 4 == 0 && n == 1 {
+                        break;
+                    }
+                }
+            }
+        }
+        if sliders < 5 {
+            continue;
+        }
+        let reserved = 0u64;
+        if !place_king_somewhere(rng, &mut p, victim ^ 1, reserved) {
+            continue;
+        }
+        // either the victim is to move (pins and checks computed when the position is built), or the other
+        // side is and passes / makes a quiet move first
+        p.stm = if rng.chance(1, 2) { victim } else { victim ^ 1 };
+        if p.in_check(p.stm ^ 1) {
+            p.stm ^= 1;
+        }
+        if !p.valid() {
+            continue;
+        }
+        return Some(Start::plain(p, tag));
+    }
+    None
 }
 
 /// Search-based workload: Black's double step ends the game (stalemate, or mate by a discovered or
